@@ -285,7 +285,7 @@ func (sc *C20Scenario) Execute(t *testing.T) *core.Outcome {
 				if p == k {
 					iv.Panicked = true
 					out.Fault("handler-panic")
-					switch (ri + k) % 5 { // panic values of every kind: string, error, int, struct, slice
+					switch (ri + k) % 8 { // panic values of every kind: string, error, int, struct, slice, and values whose own methods panic
 					case 0:
 						panic(fmt.Sprintf("handler %d panics", ri))
 					case 1:
@@ -294,8 +294,15 @@ func (sc *C20Scenario) Execute(t *testing.T) *core.Outcome {
 						panic(42 + ri)
 					case 3:
 						panic(customPanic{ri})
-					default:
+					case 4:
 						panic([]int{ri, k})
+					case 5:
+						var e error = (*ptrErr)(nil)
+						panic(e)
+					case 6:
+						panic((*ptrStringer)(nil))
+					default:
+						panic(panickyErr{ri})
 					}
 				}
 			}
